@@ -5,7 +5,7 @@ diff=$1; shift
 cd /repo || exit 2
 if ! git diff --quiet; then echo "/repo has uncommitted changes" >&2; exit 2; fi
 if ! git apply --3way "$diff" 2>/tmp/apply.err && ! git apply "$diff" 2>>/tmp/apply.err; then
-  echo "APPLY-FAILED $(head -3 /tmp/apply.err)"; git checkout -q -- . ; git reset -q; exit 3
+  echo "APPLY-FAILED $(head -3 /tmp/apply.err)"; git reset -q --hard HEAD; exit 3
 fi
 git reset -q
 for id in "$@"; do
